@@ -110,6 +110,9 @@ fn oracle(c: &CkksCase) -> Verdict {
         let all: Vec<usize> = (0..pool.len()).collect();
         let close = |x: f64, y: f64| (x - y).abs() < f64::EPSILON * x.max(y).max(1.0);
         let fits = |scale: f64, level: usize| scale > 0.0 && (scale.log2() as isize) < w.levels[level].qbits as isize;
+        // a scale that certainly does not fit the level: at least half a bit above 2^bits(Q), or an exact power of two >= 2^bits(Q)
+        // (Q < 2^bits(Q); powers of two have an exact logarithm, so the boundary value itself is unambiguous)
+        let too_big = |scale: f64, level: usize| { let l = scale.log2(); l >= qbits(level) + 0.5 || (scale.to_bits() & ((1u64 << 52) - 1) == 0 && scale.is_normal() && l >= qbits(level)) };
         let what = format!("step {si} {:?}", op.kind);
         let key = format!("C03/{:?}", op.kind);
         let new: Option<CElem> = match op.kind {
@@ -180,9 +183,9 @@ fn oracle(c: &CkksCase) -> Verdict {
                 has_rescale = true;
                 Some(CElem { ct, vals: x.vals.clone(), level: x.level + 1, size: x.size, scale: ns, le: nm.modswitch(x.le, x.size, ql), max_abs: x.max_abs, rescaled: true, depth: x.depth })
             }
-            CK::ModSwitch if op.flag && (0..pool.len()).any(|j| pool[j].level + 1 < nlev && pool[j].scale.log2() >= qbits(pool[j].level + 1) + 0.5) => {
+            CK::ModSwitch if op.flag && (0..pool.len()).any(|j| pool[j].level + 1 < nlev && too_big(pool[j].scale, pool[j].level + 1)) => {
                 // the scale is kept by a plain modulus switch, so a scale that fits this level but not the next one must be refused
-                let a = pick((0..pool.len()).filter(|&j| pool[j].level + 1 < nlev && pool[j].scale.log2() >= qbits(pool[j].level + 1) + 0.5).collect(), op.a).unwrap();
+                let a = pick((0..pool.len()).filter(|&j| pool[j].level + 1 < nlev && too_big(pool[j].scale, pool[j].level + 1)).collect(), op.a).unwrap();
                 let ok = refuses(|| ev.mod_switch_to_next_new(&pool[a].ct)) && refuses(|| { let mut x = pool[a].ct.clone(); ev.mod_switch_to_next_inplace(&mut x); x });
                 if !ok { return fail_key(key, format!("{what}: scale 2^{:.1} does not fit the {}-bit modulus of the next level but the switch was computed", pool[a].scale.log2(), qbits(pool[a].level + 1))); }
                 refusals += 1; None
@@ -209,14 +212,24 @@ fn oracle(c: &CkksCase) -> Verdict {
             }
             CK::BadScaleMul if op.flag => {
                 // squaring (all sizes, the size-2 fast path included) an operand whose squared scale does not fit
-                let a = match pick((0..pool.len()).filter(|&j| 2 * pool[j].size - 1 <= 16 && (pool[j].scale * pool[j].scale).log2() >= qbits(pool[j].level) + 0.5).collect(), op.a) { Some(a) => a, None => continue };
+                let a = match pick((0..pool.len()).filter(|&j| 2 * pool[j].size - 1 <= 16 && too_big(pool[j].scale * pool[j].scale, pool[j].level)).collect(), op.a) { Some(a) => a, None => continue };
                 let ok = refuses(|| ev.square_new(&pool[a].ct)) && refuses(|| { let mut x = pool[a].ct.clone(); ev.square_inplace(&mut x); x });
                 if !ok { return fail_key(key, format!("{what}: squared scale 2^{:.1} does not fit the {}-bit modulus but the square (operand size {}) was computed", 2.0 * pool[a].scale.log2(), qbits(pool[a].level), pool[a].size)); }
                 refusals += 1; None
             }
+            CK::BadScaleMul if op.b & 1 == 1 && (0..pool.len()).any(|j| too_big(pool[j].scale * s0, pool[j].level) && s0.log2() + 8.0 + vbits < qbits(pool[j].level)) => {
+                // ciphertext times plaintext (encoded at the ciphertext's level with the initial scale) whose product scale does not fit
+                let a = pick((0..pool.len()).filter(|&j| too_big(pool[j].scale * s0, pool[j].level) && s0.log2() + 8.0 + vbits < qbits(pool[j].level)).collect(), op.a).unwrap();
+                let x = &pool[a];
+                let v = &vecs[pick_idx(op.b >> 1, vecs.len())];
+                let pt = match catch(|| enc.encode_c64_array_new(v, Some(w.levels[x.level].parms_id), s0)) { Ok(p) => p, Err(p) => return fail_key(key, format!("{what}: encode at level {} with scale 2^{:.1} refused: {p}", x.level, s0.log2())) };
+                let ok = refuses(|| ev.multiply_plain_new(&x.ct, &pt)) && refuses(|| { let mut y = x.ct.clone(); ev.multiply_plain_inplace(&mut y, &pt); y });
+                if !ok { return fail_key(key, format!("{what}: ciphertext scale 2^{:.1} times plaintext scale 2^{:.1} does not fit the {}-bit modulus but multiply_plain was computed", x.scale.log2(), s0.log2(), qbits(x.level))); }
+                refusals += 1; None
+            }
             CK::BadScaleMul => {
                 let a = match pick(all.clone(), op.a) { Some(a) => a, None => continue };
-                let b = match pick((0..pool.len()).filter(|&j| pool[j].level == pool[a].level && pool[j].size + pool[a].size - 1 <= 16 && (pool[j].scale * pool[a].scale).log2() >= qbits(pool[a].level) + 0.5).collect(), op.b) { Some(b) => b, None => continue };
+                let b = match pick((0..pool.len()).filter(|&j| pool[j].level == pool[a].level && pool[j].size + pool[a].size - 1 <= 16 && too_big(pool[j].scale * pool[a].scale, pool[a].level)).collect(), op.b) { Some(b) => b, None => continue };
                 let ok = refuses(|| ev.multiply_new(&pool[a].ct, &pool[b].ct));
                 if !ok { return fail_key(key, format!("{what}: product scale 2^{:.1} does not fit the {}-bit modulus but the product was computed", (pool[a].scale * pool[b].scale).log2(), qbits(pool[a].level))); }
                 refusals += 1; None
